@@ -36,10 +36,18 @@ Proof. exact fs_changed_means_differs. Qed.
 (* pacman: requested packages present / absent / exactly the explicit set (outside K19), and
    changed is reported iff the package state changes *)
 Theorem C04_pacman_declared_state : forall p s,
-  known_sync_dependency p (pdb s) = false -> pdeclared_b p (pdb (snd (pacman p false s))) = true.
+  known_sync_dependency p (pdb s) = false ->
+  let d' := pdb (snd (pacman p false s)) in
+  pdeclared_b p d' = true
+  /\ (pp_upgrade p = true -> upgradable d' = false)
+  /\ (pp_update_cache p = true -> dbver d' = upstream (pdb s)).
 Proof. exact pacman_declared. Qed.
+(* ok: package sets and installed level untouched; without update_cache the whole database is *)
 Theorem C04_pacman_ok_means_unchanged : forall p s,
-  pr_changed (fst (pacman p false s)) = false -> pdb (snd (pacman p false s)) = pdb s.
+  pr_changed (fst (pacman p false s)) = false ->
+  let d' := pdb (snd (pacman p false s)) in
+  installed d' = installed (pdb s) /\ explicit d' = explicit (pdb s) /\ sysver d' = sysver (pdb s)
+  /\ (pp_update_cache p = false -> d' = pdb s).
 Proof. exact pacman_unchanged_db. Qed.
 Theorem C04_pacman_changed_means_differs : forall p s,
   known_sync_dependency p (pdb s) = false ->
@@ -58,9 +66,9 @@ Theorem C04_changed_iff_refuted_K8 :
             {| sw := w_empty; slog := [] |}) = ROk false.
 Proof. exact K8_changed_iff_refuted. Qed.
 Theorem C04_sync_refuted_K19 :
-  let d := {| installed := ["a"%string]; explicit := []; upgradable := false |} in
+  let d := {| installed := ["a"%string]; explicit := []; sysver := 0; dbver := 0; upstream := 0 |} in
   let p := {| pp_names := ["a"%string]; pp_state := PSync; pp_update_cache := false; pp_upgrade := false |} in
   let r := pacman p false {| pdb := d; plog := [] |} in
-  pr_changed (fst r) = true /\ pdb (snd r) = {| installed := ["a"%string]; explicit := []; upgradable := false |}
+  pr_changed (fst r) = true /\ pdb (snd r) = {| installed := ["a"%string]; explicit := []; sysver := 0; dbver := 0; upstream := 0 |}
   /\ pdeclared_b p (pdb (snd r)) = false /\ known_sync_dependency p d = true.
 Proof. exact K19_sync_refuted. Qed.
